@@ -19,7 +19,7 @@ META = {
         "shrinking group has enough elements is arithmetic and not judged."),
     "trusted_base": ["imbl::Vector::truncate / split_at / skip", "rustc MIR construction"],
     "assumptions": [],
-    "not_decided": "sizes of shrinking groups and of appended slices (integer arithmetic over limit, len, index)",
+    "not_decided": "nothing arithmetic any more for the translators (R15.6 decides the running length exactly); the update functions only change the view between two polls and are covered by R09.12",
 }
 META["technique"] = "static analysis: dominance / provenance / typestate rules over rustc MIR facts (rustc_private driver) + path-partitioned abstract interpretation in a linear-inequality domain (view-length balance; Fourier-Motzkin emptiness, no execution, no external solver)"
 META["explanation"] += " R15.5 a Reset emitted by the Head / Tail translators is cut to the limit (truncate / take / local cutting helper with a limit-dependent argument, or skip relative to the skipped vector's own length; a skip position computed from the previous length in a length-changing arm is a violation)."
